@@ -77,6 +77,12 @@ def run_case(case):
                 a = r.choice([0.1, 0.5, 1, 2, 3.5])
                 b = a * r.choice([2, 10, 0.5, 1])
             n = rnd(r) if r.random() < 0.3 else r.randint(-1, 7)
+            if r.random() < 0.08:
+                # bounds many orders of magnitude apart (representable in float64; the harness runs with x64), normal numbers only
+                a = r.choice([1e-200, 1e-300, 1e-150, 2.5e-120, 1.0, 3.0])
+                b = r.choice([1e200, 1e10, 1e150, 1e300, 4e250])
+                n = r.randint(2, 7)
+                out["hist"][f"{which}:extreme_magnitudes"] = out["hist"].get(f"{which}:extreme_magnitudes", 0) + 1
             if explicit:
                 _, a, b, n = explicit.pop(0)
                 a, b = (float(x) if isinstance(x, str) else x for x in (a, b))
